@@ -370,6 +370,20 @@ func runC17(c *Ctx) {
 	if canon(goLoad(nil)) != canon(goLoad([]byte(renderJSON(allDefaults)))) {
 		c.Violate(Finding{Desc: "empty input does not load as the all-defaults document", Key: "empty-vs-defaults"})
 	}
+	// what a load returns belongs to the caller: changing it must not change what later loads return
+	for _, data := range [][]byte{nil, {}, []byte(renderJSON(allDefaults)), []byte(`{"apiVersion":"pod-security.admission.config.k8s.io/v1","kind":"PodSecurityConfiguration","defaults":{"enforce":"baseline"},"exemptions":{"namespaces":["kube-system"]}}`)} {
+		before := canon(goLoad(data))
+		if cfg, err := load.LoadFromData(data); err == nil && cfg != nil {
+			cfg.Defaults.Enforce, cfg.Defaults.EnforceVersion, cfg.Defaults.Warn = "restricted", "v1.25", "restricted"
+			cfg.Exemptions.Namespaces = append(cfg.Exemptions.Namespaces, "tailored")
+			cfg.Exemptions.Usernames = append(cfg.Exemptions.Usernames, "tailored")
+		}
+		c.Eval(2)
+		if after := canon(goLoad(data)); after != before {
+			c.Violate(Finding{Desc: "a configuration returned by an earlier load was modified by its caller, and a later load of the same input returns the modified content", Key: "load-shares-state",
+				Input: J{"data": string(data)}, Go: J{"firstLoad": before, "loadAfterTheCallerModifiedTheFirstResult": after}})
+		}
+	}
 	// directed documents: every catalogued apiVersion (served and unserved) on a minimal and on a full document
 	var directed []*objVal
 	for _, av := range append(append([]string{}, apiVersions...), badAPIVersions...) {
